@@ -26,6 +26,10 @@ import EPV.Gen.Cog19D
 import EPV.Gen.Cog21
 import EPV.Gen.Cog21D
 import EPV.Spec.Jump
+import EPV.Lemmas.HydroRobust
+import EPV.Lemmas.Bridge.Noh
+import EPV.Lemmas.Bridge.Cog19
+import EPV.Lemmas.Bridge.Cog21
 import EPV.Tactics
 
 set_option linter.all false
@@ -46,8 +50,8 @@ def nohShock (p : Noh.P) (t : ℝ) : ℝ := |p.u0| * t * (p.gamma - 1) / 2
 
 /-- the generated path condition is `r < nohShock p t` -/
 theorem noh_shock_coded (p : Noh.P) (r t : ℝ) : Noh.c0 p r t ↔ r < nohShock p t := by
-  unfold Noh.c0 nohShock
-  first | exact Iff.rfl | (constructor <;> intro h <;> linarith)
+  unfold nohShock
+  exact EPV.Bridge.noh_c0_iff p r t
 
 /-- shock speed implied by the coded position -/
 def nohSpeed (p : Noh.P) : ℝ := |p.u0| * (p.gamma - 1) / 2
@@ -80,6 +84,10 @@ so these are the one-sided limits of the returned fields (`noh_conserves`). -/
 theorem noh_jump (p : Noh.P) (t : ℝ) (hγ : 1 < p.gamma) (hu : p.u0 < 0) (ht : 0 < t) :
     ShockJump (nohInner p) (nohOuter p) (nohShock p) (nohSpeed p) t := by
   refine ⟨noh_shock_hasDerivAt p t, ?_⟩
+  -- the generated leaves enter only through their documented closed forms (Lemmas/Bridge/Noh.lean)
+  simp only [RankineHugoniot, State.massFlux, State.momFlux, State.energyFlux, nohInner, nohOuter, stateAt,
+    EPV.Bridge.noh_L0_density, EPV.Bridge.noh_L0_velocity, EPV.Bridge.noh_L0_pressure, EPV.Bridge.noh_L0_sie,
+    EPV.Bridge.noh_L1_density, EPV.Bridge.noh_L1_velocity, EPV.Bridge.noh_L1_pressure, EPV.Bridge.noh_L1_sie]
   obtain ⟨g, k, ρ0, u0⟩ := p
   simp only at hγ hu
   obtain ⟨v, rfl⟩ : ∃ v, u0 = -v := ⟨-u0, by ring⟩
@@ -89,8 +97,7 @@ theorem noh_jump (p : Noh.P) (t : ℝ) (hγ : 1 < p.gamma) (hu : p.u0 < 0) (ht :
   have hpow : ((g + 1) / (g - 1)) ^ k = ((g + 1) / (g - 1)) ^ (k - 1) * ((g + 1) / (g - 1)) := by
     rw [Real.rpow_sub_one hA.ne' k, div_mul_cancel₀ _ hA.ne']
   have h1 : g - 1 ≠ 0 := by linarith
-  simp only [RankineHugoniot, State.massFlux, State.momFlux, State.energyFlux, nohInner, nohOuter, stateAt,
-    nohShock, nohSpeed, epv_leaf, habs]
+  simp only [nohShock, nohSpeed, habs]
   rw [noh_ratio v g t hv hγ ht, hpow]
   generalize ((g + 1) / (g - 1)) ^ (k - 1) = B
   refine ⟨?_, ?_, ?_⟩ <;> field_simp <;> ring
@@ -124,14 +131,14 @@ theorem noh_conserves (p : Noh.P) (t : ℝ) (hγ : 1 < p.gamma) (hu : p.u0 < 0) 
   · intro r; simp only [Noh.velocity, noh_shock_coded]
   · intro r; simp only [Noh.pressure, noh_shock_coded]
   · intro r; simp only [Noh.specific_internal_energy, noh_shock_coded]
-  · exact (Noh.L0.density_hasDerivAt_r p _ t).continuousAt
-  · exact (Noh.L0.velocity_hasDerivAt_r p _ t).continuousAt
-  · exact (Noh.L0.pressure_hasDerivAt_r p _ t).continuousAt
-  · exact (Noh.L0.specific_internal_energy_hasDerivAt_r p _ t).continuousAt
-  · exact (Noh.L1.density_hasDerivAt_r p _ t hx.ne' hq).continuousAt
-  · exact (Noh.L1.velocity_hasDerivAt_r p _ t).continuousAt
-  · exact (Noh.L1.pressure_hasDerivAt_r p _ t).continuousAt
-  · exact (Noh.L1.specific_internal_energy_hasDerivAt_r p _ t).continuousAt
+  · exact HasDerivAt.continuousAt (by epv_hydro_cert Noh.L0.density_hasDerivAt_r p (nohShock p t) t)
+  · exact HasDerivAt.continuousAt (by epv_hydro_cert Noh.L0.velocity_hasDerivAt_r p (nohShock p t) t)
+  · exact HasDerivAt.continuousAt (by epv_hydro_cert Noh.L0.pressure_hasDerivAt_r p (nohShock p t) t)
+  · exact HasDerivAt.continuousAt (by epv_hydro_cert Noh.L0.specific_internal_energy_hasDerivAt_r p (nohShock p t) t)
+  · exact HasDerivAt.continuousAt (by epv_hydro_cert Noh.L1.density_hasDerivAt_r p (nohShock p t) t)
+  · exact HasDerivAt.continuousAt (by epv_hydro_cert Noh.L1.velocity_hasDerivAt_r p (nohShock p t) t)
+  · exact HasDerivAt.continuousAt (by epv_hydro_cert Noh.L1.pressure_hasDerivAt_r p (nohShock p t) t)
+  · exact HasDerivAt.continuousAt (by epv_hydro_cert Noh.L1.specific_internal_energy_hasDerivAt_r p (nohShock p t) t)
 
 /-! ### Coggeshall 19 -/
 
@@ -141,8 +148,8 @@ theorem cog19_leaves : Cog19.okLeaves = [0, 1] ∧ Cog19.nLeaves = 2 := ⟨rfl, 
 def cog19Shock (p : Cog19.P) (t : ℝ) : ℝ := -(p.gamma - 1) * p.u0 * t / 2
 
 theorem cog19_shock_coded (p : Cog19.P) (r t : ℝ) : Cog19.c0 p r t ↔ r < cog19Shock p t := by
-  unfold Cog19.c0 cog19Shock
-  first | exact Iff.rfl | (constructor <;> intro h <;> linarith)
+  unfold cog19Shock
+  exact EPV.Bridge.cog19_c0_iff p r t
 
 /-- shock speed implied by the coded position -/
 def cog19Speed (p : Cog19.P) : ℝ := -(p.gamma - 1) * p.u0 / 2
@@ -181,14 +188,19 @@ theorem cog19_jump (p : Cog19.P) (t : ℝ) (hγ : 1 < p.gamma) (hu : p.u0 < 0) (
     (hρ : p.rho0 ≠ 0) (hΓ : p.Gamma ≠ 0) :
     ShockJump (cog19Inner p) (cog19Outer p) (cog19Shock p) (cog19Speed p) t := by
   refine ⟨cog19_shock_hasDerivAt p t, ?_⟩
+  have hx := (cog19_shock_pos p t hγ hu ht).ne'
+  -- the generated leaves enter only through their documented closed forms (Lemmas/Bridge/Cog19.lean)
+  simp only [RankineHugoniot, State.massFlux, State.momFlux, State.energyFlux, cog19Inner, cog19Outer, stateAt,
+    EPV.Bridge.cog19_L0_density, EPV.Bridge.cog19_L0_velocity, EPV.Bridge.cog19_L0_pressure,
+    EPV.Bridge.cog19_L0_sie p _ t hρ hγ hΓ, EPV.Bridge.cog19_L1_density p _ t hx, EPV.Bridge.cog19_L1_velocity,
+    EPV.Bridge.cog19_L1_pressure, EPV.Bridge.cog19_L1_sie]
   obtain ⟨G, a_rad, al, be, cl, g, geo, lam, ρ0, u0⟩ := p
   simp only at hγ hu hρ hΓ
   obtain ⟨v, rfl⟩ : ∃ v, u0 = -v := ⟨-u0, by ring⟩
   have hv : 0 < v := by linarith
   have hA : 0 < (g + 1) / (g - 1) := div_pos (by linarith) (by linarith)
   have h1 : g - 1 ≠ 0 := by linarith
-  simp only [RankineHugoniot, State.massFlux, State.momFlux, State.energyFlux, cog19Inner, cog19Outer, stateAt,
-    cog19Shock, cog19Speed, epv_leaf]
+  simp only [cog19Shock, cog19Speed]
   rw [cog19_ratio v g t hv hγ ht, Real.rpow_add_one hA.ne' (geo - 1)]
   have hB : 0 < ((g + 1) / (g - 1)) ^ (geo - 1) := Real.rpow_pos_of_pos hA _
   generalize ((g + 1) / (g - 1)) ^ (geo - 1) = B at hB
@@ -204,13 +216,7 @@ theorem cog19_conserves (p : Cog19.P) (t : ℝ) (hγ : 1 < p.gamma) (hu : p.u0 <
     ConservesAcross (Cog19.density p) (Cog19.velocity p) (Cog19.pressure p)
       (Cog19.specific_internal_energy p) (cog19Shock p) t := by
   have hx := cog19_shock_pos p t hγ hu ht
-  have hq : 0 < (cog19Shock p t - p.u0 * t) / cog19Shock p t := by
-    apply div_pos _ hx
-    have : 0 < -p.u0 * t := mul_pos (by linarith) ht
-    linarith
-  have hd : p.rho0 * ((cog19Shock p t - p.u0 * t) / cog19Shock p t) ^ (p.geometry - 1) * 1 ≠ 0 := by
-    have := (Real.rpow_pos_of_pos hq (p.geometry - 1)).ne'
-    simp [hρ, this]
+  have hut : 0 < -p.u0 * t := mul_pos (by linarith) ht
   refine ConservesAcross.of_shockJump (D := cog19Speed p)
     (iρ := Cog19.L0.density p) (iu := Cog19.L0.velocity p) (ip := Cog19.L0.pressure p)
     (ie := Cog19.L0.specific_internal_energy p)
@@ -220,14 +226,14 @@ theorem cog19_conserves (p : Cog19.P) (t : ℝ) (hγ : 1 < p.gamma) (hu : p.u0 <
   · intro r; simp only [Cog19.velocity, cog19_shock_coded]
   · intro r; simp only [Cog19.pressure, cog19_shock_coded]
   · intro r; simp only [Cog19.specific_internal_energy, cog19_shock_coded]
-  · exact (Cog19.L0.density_hasDerivAt_r p _ t).continuousAt
-  · exact (Cog19.L0.velocity_hasDerivAt_r p _ t).continuousAt
-  · exact (Cog19.L0.pressure_hasDerivAt_r p _ t).continuousAt
-  · exact (Cog19.L0.specific_internal_energy_hasDerivAt_r p _ t).continuousAt
-  · exact (Cog19.L1.density_hasDerivAt_r p _ t hx.ne' hq).continuousAt
-  · exact (Cog19.L1.velocity_hasDerivAt_r p _ t).continuousAt
-  · exact (Cog19.L1.pressure_hasDerivAt_r p _ t hx.ne' hq).continuousAt
-  · exact (Cog19.L1.specific_internal_energy_hasDerivAt_r p _ t hx.ne' hq hd).continuousAt
+  · exact HasDerivAt.continuousAt (by epv_hydro_cert Cog19.L0.density_hasDerivAt_r p (cog19Shock p t) t)
+  · exact HasDerivAt.continuousAt (by epv_hydro_cert Cog19.L0.velocity_hasDerivAt_r p (cog19Shock p t) t)
+  · exact HasDerivAt.continuousAt (by epv_hydro_cert Cog19.L0.pressure_hasDerivAt_r p (cog19Shock p t) t)
+  · exact HasDerivAt.continuousAt (by epv_hydro_cert Cog19.L0.specific_internal_energy_hasDerivAt_r p (cog19Shock p t) t)
+  · exact HasDerivAt.continuousAt (by epv_hydro_cert Cog19.L1.density_hasDerivAt_r p (cog19Shock p t) t)
+  · exact HasDerivAt.continuousAt (by epv_hydro_cert Cog19.L1.velocity_hasDerivAt_r p (cog19Shock p t) t)
+  · exact HasDerivAt.continuousAt (by epv_hydro_cert Cog19.L1.pressure_hasDerivAt_r p (cog19Shock p t) t)
+  · exact HasDerivAt.continuousAt (by epv_hydro_cert Cog19.L1.specific_internal_energy_hasDerivAt_r p (cog19Shock p t) t)
 
 /-! ### Coggeshall 21 (spherical, γ = 5; the shock position is not linear in t) -/
 
@@ -239,11 +245,11 @@ def cog21Shock (p : Cog21.P) (t : ℝ) : ℝ := 2 / (p.Gamma * p.temp0 * t ^ 2)
 /-- for t > 0 the solver does not take the NaN branch, and the remaining path condition is
 `r < cog21Shock p t` -/
 theorem cog21_shock_coded (p : Cog21.P) (r t : ℝ) : Cog21.c1 p r t ↔ r < cog21Shock p t := by
-  unfold Cog21.c1 cog21Shock
-  first | exact Iff.rfl | (constructor <;> intro h <;> linarith)
+  unfold cog21Shock
+  exact EPV.Bridge.cog21_c1_iff p r t
 
 theorem cog21_not_nan (p : Cog21.P) (r t : ℝ) (ht : 0 < t) : ¬ Cog21.c0 p r t := by
-  unfold Cog21.c0; linarith
+  rw [EPV.Bridge.cog21_c0_iff]; linarith
 
 /-- shock speed implied by the coded position: d/dt [2/(Γ T₀ t²)] = -4/(Γ T₀ t³) -/
 def cog21Speed (p : Cog21.P) (t : ℝ) : ℝ := -4 / (p.Gamma * p.temp0 * t ^ 3)
@@ -270,13 +276,20 @@ r = R(t), which are the one-sided limits of the returned fields (`cog21_conserve
 theorem cog21_jump (p : Cog21.P) (t : ℝ) (ht : 0 < t) (hG : p.Gamma * p.temp0 ≠ 0) (hρ : p.rho0 ≠ 0) :
     ShockJump (cog21Inner p) (cog21Outer p) (cog21Shock p) (cog21Speed p t) t := by
   refine ⟨cog21_shock_hasDerivAt p t ht hG, ?_⟩
+  have hx : cog21Shock p t ≠ 0 := by
+    unfold cog21Shock
+    exact div_ne_zero two_ne_zero (mul_ne_zero hG (pow_ne_zero _ ht.ne'))
+  -- the generated leaves enter only through their documented closed forms (Lemmas/Bridge/Cog21.lean)
+  simp only [RankineHugoniot, State.massFlux, State.momFlux, State.energyFlux, cog21Inner, cog21Outer, stateAt,
+    EPV.Bridge.cog21_post_density, EPV.Bridge.cog21_post_velocity, EPV.Bridge.cog21_post_pressure,
+    EPV.Bridge.cog21_post_sie p _ t hρ hx, EPV.Bridge.cog21_pre_density, EPV.Bridge.cog21_pre_velocity,
+    EPV.Bridge.cog21_pre_pressure, EPV.Bridge.cog21_pre_sie]
   obtain ⟨G, a_rad, al, be, cl, lam, ρ0, T0⟩ := p
   simp only at hG hρ
   have hG1 : G ≠ 0 := left_ne_zero_of_mul hG
   have hT : T0 ≠ 0 := right_ne_zero_of_mul hG
   have ht' := ht.ne'
-  simp only [RankineHugoniot, State.massFlux, State.momFlux, State.energyFlux, cog21Inner, cog21Outer, stateAt,
-    cog21Shock, cog21Speed, epv_leaf]
+  simp only [cog21Shock, cog21Speed]
   refine ⟨?_, ?_, ?_⟩ <;> field_simp <;> ring
 
 example : ∃ p : Cog21.P, ∃ t : ℝ, 0 < t ∧ p.Gamma * p.temp0 ≠ 0 ∧ p.rho0 ≠ 0 :=
@@ -289,9 +302,6 @@ theorem cog21_conserves (p : Cog21.P) (t : ℝ) (ht : 0 < t) (hG : p.Gamma * p.t
   have hx : cog21Shock p t ≠ 0 := by
     unfold cog21Shock
     exact div_ne_zero two_ne_zero (mul_ne_zero hG (pow_ne_zero _ ht.ne'))
-  have hx3 : cog21Shock p t ^ (3 : ℕ) ≠ 0 := pow_ne_zero _ hx
-  have hd1 : p.rho0 * (cog21Shock p t ^ (3 : ℕ))⁻¹ * ((3 : ℝ) / 2) * 1 ≠ 0 := by simp [hρ, hx]
-  have hd2 : p.rho0 * (cog21Shock p t ^ (3 : ℕ))⁻¹ * 1 * 1 ≠ 0 := by simp [hρ, hx]
   have hn := fun r => cog21_not_nan p r t ht
   refine ConservesAcross.of_shockJump (D := cog21Speed p t)
     (iρ := Cog21.L1.density p) (iu := Cog21.L1.velocity p) (ip := Cog21.L1.pressure p)
@@ -302,14 +312,14 @@ theorem cog21_conserves (p : Cog21.P) (t : ℝ) (ht : 0 < t) (hG : p.Gamma * p.t
   · intro r; simp only [Cog21.velocity, cog21_shock_coded, hn r, if_false]
   · intro r; simp only [Cog21.pressure, cog21_shock_coded, hn r, if_false]
   · intro r; simp only [Cog21.specific_internal_energy, cog21_shock_coded, hn r, if_false]
-  · exact (Cog21.L1.density_hasDerivAt_r p _ t hx3).continuousAt
-  · exact (Cog21.L1.velocity_hasDerivAt_r p _ t).continuousAt
-  · exact (Cog21.L1.pressure_hasDerivAt_r p _ t hx3).continuousAt
-  · exact (Cog21.L1.specific_internal_energy_hasDerivAt_r p _ t hx3 hd1).continuousAt
-  · exact (Cog21.L2.density_hasDerivAt_r p _ t hx3).continuousAt
-  · exact (Cog21.L2.velocity_hasDerivAt_r p _ t).continuousAt
-  · exact (Cog21.L2.pressure_hasDerivAt_r p _ t hx3).continuousAt
-  · exact (Cog21.L2.specific_internal_energy_hasDerivAt_r p _ t hx3 hd2).continuousAt
+  · exact HasDerivAt.continuousAt (by epv_hydro_cert Cog21.L1.density_hasDerivAt_r p (cog21Shock p t) t)
+  · exact HasDerivAt.continuousAt (by epv_hydro_cert Cog21.L1.velocity_hasDerivAt_r p (cog21Shock p t) t)
+  · exact HasDerivAt.continuousAt (by epv_hydro_cert Cog21.L1.pressure_hasDerivAt_r p (cog21Shock p t) t)
+  · exact HasDerivAt.continuousAt (by epv_hydro_cert Cog21.L1.specific_internal_energy_hasDerivAt_r p (cog21Shock p t) t)
+  · exact HasDerivAt.continuousAt (by epv_hydro_cert Cog21.L2.density_hasDerivAt_r p (cog21Shock p t) t)
+  · exact HasDerivAt.continuousAt (by epv_hydro_cert Cog21.L2.velocity_hasDerivAt_r p (cog21Shock p t) t)
+  · exact HasDerivAt.continuousAt (by epv_hydro_cert Cog21.L2.pressure_hasDerivAt_r p (cog21Shock p t) t)
+  · exact HasDerivAt.continuousAt (by epv_hydro_cert Cog21.L2.specific_internal_energy_hasDerivAt_r p (cog21Shock p t) t)
 
 end
 
